@@ -273,8 +273,9 @@ def rowP {ρ : Type} (p : P ρ) : P (Row ρ) := do
 def csvFileP {ρ : Type} (p : P ρ) : P (CsvFile ρ) := do
   let present ← bool
   let lines ← nat
+  let hasHeader ← bool
   let rows ← listOf (rowP p)
-  pure { present := present, lines := lines, rows := rows }
+  pure { present := present, lines := lines, hasHeader := hasHeader, rows := rows }
 
 def builderP : Nat → P (NetworkCostRateBuilder Float)
   | 0 => failure
